@@ -133,6 +133,12 @@ func (g *Generator) cookClient(typeName string) {
 						}
 					}
 
+					if shoot.Contains(g.data.BodyHTTPMethods, httpMethod) {
+						if _, ok := g.data.BodyParamMap[methodName]; !ok {
+							logx.Fatalf("method %s (%s) needs a struct parameter as request body", methodName, httpMethod)
+						}
+					}
+
 					//------------Results---------------
 					results := resultValues(ftype.Results) //one entry per returned value: `a, b T` declares two
 					n := len(results)
